@@ -408,3 +408,13 @@ func refBool(s string) (val, ok bool) {
 	}
 	return false, false
 }
+
+func refLowerASCII(s string) string {
+	b := []byte(s)
+	for i := range b {
+		if b[i] >= 'A' && b[i] <= 'Z' {
+			b[i] += 'a' - 'A'
+		}
+	}
+	return string(b)
+}
